@@ -51,6 +51,40 @@ CHECKS = {
         'setting kind and the real spec loaded from the std schema, with SET/RESET compiled from CONFIGURE text by the real compiler front end); to_edgeql output is re-parsed by the real parser.',
    note='Trusted: Coq kernel; extraction; translator harness/translate/c19_units.py; harness; vrt substrate. Tested only (not proved): JSON round trip of object values, to_edgeql. Outside the model: PostgreSQL-style '
         'duration text, non-ASCII digits, GLOBAL scope. No axioms.'),
+ 'C17': dict(
+   category='proof', design_ref='DESIGN.md section 4, C17 (+ section 9 change log)',
+   technique='Coq invariant proofs over all request histories / fault placements of a server-belief vs worker-reality model of compiler_pool (pool.py/worker.py); differential correspondence vs the real pool + worker modules in-process over a pickling transport with fault injection',
+   text='8 machine-checked theorems for all histories over any number of workers and databases, all truthiness/content functions and all placements of lost requests, unpickle failures of each state field, '
+        'compiler exceptions and status-2 replies: the compiler entry sees exactly the five supplied state values (C17_args_exact, C17_noreturn_args_exact), compile_in_tx runs on the supplied state, '
+        'whatever is transmitted is used, the server never believes a worker holds what it does not (C17_belief_sound, C17_keys_sound); refutation witnesses for the two repaired defects (model variants fx1/fx2) '
+        'and the status-2 known finding. Tie: the real _compute_compile_preargs / sync_worker_state_cb / BaseWorker.call / compile* / worker.__sync__ / compile / compile_in_tx run the same histories as the extracted model; '
+        'replies, what the compiler saw, the wire mask, the full belief and the worker globals are compared after every request; monitors run independently of the model. The multi-tenant path has monitors only.',
+   note='Trusted: Coq kernel; extraction (vm_compute cross-check); harness (fake transport, pickle proxy, generators, monitors); vrt stubs. Assumes one request at a time per worker and immutable state objects. '
+        'MultiTenantPool / multitenant_worker.py: monitors only (no model). RemotePool/server.py, adaptive scaling, real processes: not covered. No axioms.'),
+ 'C18': dict(
+   category='proof', design_ref='DESIGN.md section 4, C18 (+ section 9 change log)',
+   technique='Coq proofs for all strings about models of the EdgeQL/SQL quoting functions and of the lexer (tables regenerated from source by a fail-closed translator); differential correspondence vs the real Python functions and the REAL Rust lexer binary; exhaustive 0x110000 code-point sweep for the Unicode-class hypotheses',
+   text='15 machine-checked theorems for every string (list of code points), every continuation and every Unicode class table: quote_literal, dollar_quote_literal (with fuel sufficiency), codegen.visit_Constant (all branches incl. repr), '
+        'visit_BytesConstant, quote_ident (all flag combinations; partial: under explicit Python-vs-Rust class compatibility conditions that are vacuous on ASCII), param_to_str, back-quoted identifiers, and the pgsql quote_literal / quote_ident / '
+        'quote_bytea forms against a hand-written PostgreSQL lexical spec: the produced text is read back as ONE token with the original value and the rest untouched; refutation witnesses for the remaining known finding. Escape tables, regex classes, '
+        'keyword sets are regenerated from quote.py/codegen.py/common.py/keywords on every run (shapes pinned). Tie: the real Python functions vs the extracted model (exhaustive short strings over an adversarial alphabet + random), the lexer model vs the real Rust lexer built '
+        'from the unmodified tokenizer sources, monitors = real function -> real lexer; the compatibility hypotheses are discharged outside Coq by sweeping all 0x110000 code points against the real re/str methods and the real lexer.',
+   note='Trusted: Coq kernel; extraction; translator; harness; the qllex crate (bigdecimal shim) and vrt stubs; hand-written PG lexical spec (PostgreSQL absent); CPython str/re/repr semantics as mirrored; the code-point sweep is a checked hypothesis, not a proof. No axioms.'),
+ 'C14': dict(
+   category='proof', design_ref='DESIGN.md section 4, C14 (+ section 9 change log)',
+   technique='Coq proofs (codec round trip, id construction injectivity relative to a collision-free hash) about a Gallina model of sertypes describe/parse incl. SHA-1/uuid5, tags regenerated from source; differential correspondence vs the real sertypes on real schema objects',
+   text='11 machine-checked theorems, unbounded in term size, both protocol generations: every record the encoder emits is parsed back (C14_codec_roundtrip, C14_stream_parses), parse (describe t) = expect t and the returned id is a pure function of the term (C14_roundtrip, C14_root_id), '
+        'no duplicate ids in a stream, v2 length prefixes, the hashed strings determine their components when names contain no NUL/colon, equal ids imply equal skeletons / terms under stated hypotheses (C14_id_injective, C14_id_functional); Refuted.v holds witnesses for the three id-collision '
+        'known findings. Tags/flags/struct formats are regenerated from sertypes.py (and cross-checked with typedesc.rst) on every run. Tie: describe / describe_params / describe_input_shape / parse of the real sertypes.py run on generated type terms built as real schema objects; bytes, ids, decoded trees and error classes compared exactly.',
+   note='Trusted: Coq kernel; extraction; translator; harness (term builder, canonicalisers, monitors); vrt stubs. SHA-1 collision- and cycle-freedom is a hypothesis of the id theorems. PARTIAL: the EdgeQL compiler that feeds sertypes is not executed in this check (sertypes tier only); describe_params/input shapes are compared and monitored but not covered by a theorem. No axioms.'),
+ 'C01': dict(
+   category='proof', design_ref='DESIGN.md section 4, C01 (+ section 9 change log)',
+   technique='Coq proofs (round trip, idempotence, token non-fusion) about a model of the EdgeQL expression printer and a precedence-climbing parser driven by tables regenerated from the grammar sources; differential correspondence vs the real printer and the real LR parser; grammar-driven exploration of the whole language on the real code',
+   text='PARTIAL proof + exploration. Proved for every tree of the expression core (unbounded depth/width): parse (pp e) = Some e for every e in the parser image (C01_roundtrip, C01_in_context), pp is idempotent through the parser, no two adjacent printed tokens fuse (C01_lex_stable); '
+        'Refuted.v proves the full statement false with witnesses for the printer defects found. Operator/precedence/token tables are regenerated fail-closed from precedence.py, tokens.py, expressions.py on every run. Correspondence: generated core trees -> real qlast -> real generate_source == model text and the real parser returns the same tree. '
+        'The rest of the language (statements, DDL, SDL, migrations, config, describe) is covered by exploration on the REAL parser/printer: texts derived from the repo grammar and mutated upstream corpora, in every entry point and printer mode: parse -> print -> parse -> AST-equal -> print byte-identical; 42 genuine defects are listed as known findings, anything unrecognised is a VIOLATION.',
+   note='Trusted: Coq kernel; extraction; translator; harness (term<->qlast conversion, AST canonicaliser with six documented normalisations, finding predicates); vrt substrate: real Rust lexer, own LR(1) tables validated on upstream corpora and against a canonical LR(1) oracle (6 table cells for `a NOT LIKE b LIKE c` shapes undetermined and excluded). '
+        'Statement skeletons and DDL are NOT in the Coq core (exploration only). No axioms.'),
 }
 
 NA_DEFAULT = 'check not built yet (round 1 in progress); see DESIGN.md section 6'
